@@ -19,13 +19,13 @@ decidable hypothesis on the table (Model/LRTermCheck.lean):
   `(t, s, q)`), to a summary (how it ends, how many reductions it takes), and verifies that the
   summaries are consistent with one unfolding of the parser step (`summCond`). It is exact at table
   level: it fails iff one of these computations does not finish. `lr_terminates_of_summ` is the same
-  for any summary table that passes `lrSummOk`, however it was found. No explicit fuel bound is
-  proved for this checker (the proof is a lexicographic induction on remaining input and remaining
-  reductions `stackN`).
-* `lr_terminates_linear` — with `lrTableValid` and the stronger, sufficient checker `lrRankCheckB` (a
-  ranking certificate under which every reduction lowers `U * stack height + v(lookahead, top
-  state)`, whatever state the reduction exposes) the explicit fuel `lrTermFuel T toks =
-  (|toks| + 1) * (U + V + 1)`, linear in the number of delivered tokens, is enough.
+  for any summary table that passes `lrSummOk`, however it was found. `lr_terminates_bound`: the
+  explicit fuel `lrSummFuel T toks = (|toks| + 1) * (C² + 3 C + 1)` is enough (`C`: largest number of
+  reductions of one of those computations) — linear in the number of delivered tokens.
+* `lr_terminates_linear` — the first, simpler argument, kept as a second certificate: with
+  `lrTableValid` and the sufficient (not exact) checker `lrRankCheckB` (a ranking under which every
+  reduction lowers `U * stack height + v(lookahead, top state)`, whatever state the reduction
+  exposes) the fuel `lrTermFuel T toks = (|toks| + 1) * (U + V + 1)` is enough.
 * `f24_counterexample` — the REAL table parol + lalry produce for the cyclic grammar
   `N0: N1 | "a"; N1: N1 | "a" | "a";` (smallest table of /verif/work/C19/cyclic.txt on which the
   model runs out of fuel and the real parser hangs; not hand-minimised): it passes `lrTableValid`
@@ -46,19 +46,29 @@ namespace ParolModel
 def LRTerminates (T : LRTables) : Prop :=
   ∀ (o : Opts) (toks : List MTok), ∃ fuel, (lrRun T o fuel toks).res ≠ .fuel
 
-/-- **Termination (LR), any summary table**: consistent summaries (`lrSummOk`) suffice. -/
+/-- **Termination (LR), any summary table**: with consistent summaries (`lrSummOk`) no run with at
+    least `S.fuel toks = (|toks| + 1) * (C² + 3 C + 1)` fuel ends `fuel` (`C = S.maxc`). -/
 theorem lr_terminates_of_summ (T : LRTables) (S : LRSumm) (hs : lrSummOk T S = true)
-    (o : Opts) (toks : List MTok) : ∃ fuel, (lrRun T o fuel toks).res ≠ .fuel := by
-  obtain ⟨fuel, hf⟩ := lrCore_summ_term hs o.maxDepth (toks.length + 1) ⟨[0], toks, [], [], []⟩
-    (by simp) (extStack_init T toks)
-  exact ⟨fuel, by rw [lrRun_res_core]; exact hf 0⟩
+    (o : Opts) (toks : List MTok) (fuel : Nat) (hf : S.fuel toks ≤ fuel) :
+    (lrRun T o fuel toks).res ≠ .fuel := by
+  have hm := summMeasure_init hs toks
+  rw [lrRun_res_core]
+  exact lrCore_summ_term hs o.maxDepth fuel ⟨[0], toks, [], [], []⟩ 0 (extStack_init T toks) (by omega)
+
+/-- **Termination (LR) with an explicit bound**: for every table accepted by the checker
+    `lrNoReduceLoopB`, every input and every option record, the run with the amount of fuel
+    `lrSummFuel T toks` (linear in the number of delivered tokens) or more returns a success or an
+    error value — it does not run out of fuel. -/
+theorem lr_terminates_bound (T : LRTables) (hc : lrNoReduceLoopB T = true) (o : Opts) (toks : List MTok)
+    (fuel : Nat) (hf : lrSummFuel T toks ≤ fuel) : (lrRun T o fuel toks).res ≠ .fuel :=
+  lr_terminates_of_summ T (lrSummOf T) hc o toks fuel hf
 
 /-- **Termination (LR)**, "…or looping forever": for every table accepted by the checker
     `lrNoReduceLoopB`, every input and every option record, the parser model returns a success or an
     error value — with enough fuel it does not run out of fuel. -/
 theorem lr_terminates (T : LRTables) (hc : lrNoReduceLoopB T = true) :
     ∀ (o : Opts) (toks : List MTok), ∃ fuel, (lrRun T o fuel toks).res ≠ .fuel :=
-  fun o toks => lr_terminates_of_summ T (lrSummOf T) hc o toks
+  fun o toks => ⟨lrSummFuel T toks, lr_terminates_bound T hc o toks _ (Nat.le_refl _)⟩
 
 theorem lrTerminates_of_check (T : LRTables) (hc : lrNoReduceLoopB T = true) : LRTerminates T :=
   lr_terminates T hc
@@ -70,23 +80,20 @@ theorem lr_terminates_mono (T : LRTables) (o : Opts) (toks : List MTok) (fuel ex
   rw [lrRun_res_core] at h ⊢
   exact lrCore_fuel_mono T o.maxDepth fuel _ 0 h extra
 
-/-- Contrapositive used by the exploration: a table on which the run is out of fuel for every amount
-    of fuel is rejected by the checker. -/
-theorem lr_looping_rejected (T : LRTables) (o : Opts) (toks : List MTok)
-    (h : ∀ fuel, (lrRun T o fuel toks).res = .fuel) : lrNoReduceLoopB T = false := by
+/-- Contrapositive used by the exploration: a table on which a run with at least `lrSummFuel T toks`
+    fuel is out of fuel is rejected by the checker. -/
+theorem lr_fuel_exhausted_rejected (T : LRTables) (o : Opts) (toks : List MTok) (fuel : Nat)
+    (hf : lrSummFuel T toks ≤ fuel) (h : (lrRun T o fuel toks).res = .fuel) : lrNoReduceLoopB T = false := by
   cases hc : lrNoReduceLoopB T with
   | false => rfl
-  | true =>
-    obtain ⟨fuel, hf⟩ := lr_terminates T hc o toks
-    exact absurd (h fuel) hf
+  | true => exact absurd h (lr_terminates_bound T hc o toks fuel hf)
 
 /-- Together with `lr_no_internal`: with a complete table that passes the checker the parser model
     returns `ok`, a syntax error or the depth error — nothing else. -/
 theorem lr_total (T : LRTables) (gprods : List Rule) (hcomp : lrTableComplete T gprods = true)
     (hc : lrNoReduceLoopB T = true) (o : Opts) (toks : List MTok) :
-    ∃ fuel, (lrRun T o fuel toks).res ≠ .fuel ∧ (lrRun T o fuel toks).res ≠ .internal := by
-  obtain ⟨fuel, hf⟩ := lr_terminates T hc o toks
-  exact ⟨fuel, hf, lr_no_internal T gprods o fuel toks hcomp⟩
+    (lrRun T o (lrSummFuel T toks) toks).res ≠ .fuel ∧ (lrRun T o (lrSummFuel T toks) toks).res ≠ .internal :=
+  ⟨lr_terminates_bound T hc o toks _ (Nat.le_refl _), lr_no_internal T gprods o _ toks hcomp⟩
 
 -- ---------------------------------------------------------------------------------------------
 -- explicit linear bound under the ranking checker
@@ -202,6 +209,7 @@ theorem LRGeneratedTablesPass_partial (isTableOf : Grammar → LRTables → Prop
 example : lrNoReduceLoopB exLR = true := by decide
 example : lrRankCheckB exLR exLRg = true := by decide
 example : lrTermFuel exLR (exLRToks [5, 5, 6, 6]) = 80 := by decide
-example : (lrRun exLR ⟨false, false, none⟩ 80 (exLRToks [5, 5, 6, 6])).res = .ok := by decide
+example : lrSummFuel exLR (exLRToks [5, 5, 6, 6]) = 25 := by decide
+example : (lrRun exLR ⟨false, false, none⟩ 25 (exLRToks [5, 5, 6, 6])).res = .ok := by decide
 
 end ParolModel
